@@ -11,6 +11,7 @@ import (
 	"fmt"
 	"os"
 	"os/exec"
+	"strings"
 	"syscall"
 	"time"
 
@@ -42,9 +43,13 @@ func prepareUnpriv(root *tnode, mode string, pos int) {
 		case "reg":
 			n.perm |= 0o644
 		}
-		if n.kind != "reg" && n.kind != "dir" {
-			n.xattrs = nil // trusted.* is invisible without CAP_SYS_ADMIN, user.* not allowed here
+		keep := n.xattrs[:0:0] // trusted.* is invisible without CAP_SYS_ADMIN: user.* on files and directories only
+		for _, x := range n.xattrs {
+			if strings.HasPrefix(x.Key, "user.") && (n.kind == "reg" || n.kind == "dir") {
+				keep = append(keep, x)
+			}
 		}
+		n.xattrs = keep
 		for _, k := range n.kids {
 			walk(k)
 		}
